@@ -120,8 +120,14 @@ def handleMapper : List Sx → Option String
     let h ← parseHeap hp
     let s := selOf (← parsePairs ex)
     let r ← root.asNat?
+    let subst : List (Nat × Nat) := match mode with
+      | .list [.atom "subst", .list ps] => ps.filterMap fun
+        | .list [a, b] => do some (← a.asNat?, ← b.asNat?)
+        | _ => none
+      | _ => []
     let relabel ← match mode with
       | .atom "id" => some relabelId
+      | .list [.atom "subst", _] => some relabelId
       | .list [.atom "tag", .atom kind, .atom t] =>
         some (relabelWith fun nd => (nd.kind,
           if nd.kind == kind && !nd.tags.contains t then nd.tags ++ [t] else nd.tags))
@@ -129,7 +135,7 @@ def handleMapper : List Sx → Option String
         -- make nodes equal by dropping a tag (creates duplicates to be merged)
         some (relabelWith fun nd => (nd.kind, nd.tags.filter (· != t)))
       | _ => none
-    let st := runTransform s relabel h r
+    let st := if subst.isEmpty then runTransform s relabel h r else runTransformSubst s relabel h r subst
     let img := (visitLog s h r).map fun i => match st.image i with
       | some j => s!"({i} {j})"
       | none => s!"({i} none)"
